@@ -117,9 +117,14 @@ class FullMain:
 
     def norm(self, t):
         t = subst(t, self.map)
-        if not self.first_only or t is None:
+        if t is None:
             return t
         t = self._norm_first_only(t)
+        # next(os.walk(p), <default>) is the first walk entry (the default stands for an unreadable directory: nothing listed)
+        m0 = {x: Op("elem", x.args[0], Const(0)) for x in walk(t)
+              if isinstance(x, Op) and x.op == "call:next" and len(x.args) == 2 and isinstance(x.args[0], Op) and x.args[0].op == "call:os.walk"}
+        if m0:
+            t = subst(t, m0)
         # an element of a fully known tuple/list (e.g. the (root, files) pair a helper returned)
         for _ in range(8):
             m = {}
